@@ -466,13 +466,8 @@ pub fn mount(dev: MemDev, cfg: &Cfg, ctr: &Rc<Cell<u32>>) -> Result<Fs, Error<De
 fn list_dir(dir: &FDir, only_first: bool) -> Result<Vec<ListEntry>, ErrKind> {
     let mut out = Vec::new();
     let mut it = dir.iter();
-    let mut after_err = false;
     loop {
         let Some(r) = it.next() else { break };
-        if after_err {
-            // iterators must end after yielding an error once
-            return Err(ErrKind::Other);
-        }
         match r {
             Ok(e) => {
                 out.push(ListEntry {
@@ -487,15 +482,9 @@ fn list_dir(dir: &FDir, only_first: bool) -> Result<Vec<ListEntry>, ErrKind> {
                     break;
                 }
             }
-            Err(e) => {
-                let k = ek(e);
-                // the iterator must end now
-                if it.next().is_some() {
-                    return Err(ErrKind::Other);
-                }
-                after_err = true;
-                return Err(k);
-            }
+            // (whether the iterator ends, repeats the error or carries on after yielding an error is not prescribed:
+            // the caller has been told)
+            Err(e) => return Err(ek(e)),
         }
         if out.len() > 100_000 {
             return Err(ErrKind::Other);
@@ -1208,13 +1197,9 @@ fn exec_op<'a>(fs: &'a Fs, slots: &mut Slots<'a>, m: &Model, op: &Op, cluster_si
             while let Some(r) = it.next() {
                 match r {
                     Ok(e) => v.push((e.offset, e.size)),
-                    Err(e) => {
-                        let k = ek(e);
-                        if it.next().is_some() {
-                            return Err(ErrKind::Other);
-                        }
-                        return Err(k);
-                    }
+                    // (whether the iterator ends, repeats the error or carries on after yielding an error is not
+                    // prescribed: the caller has been told)
+                    Err(e) => return Err(ek(e)),
                 }
                 if v.len() > 1_000_000 {
                     return Err(ErrKind::Other);
